@@ -820,7 +820,9 @@ def vam(ctx):
         ctx.ob("C10.gdt", cb.short(), f"send#{i}:built-from-report", ok,
                "the VAM sent is the one filled from this report", loc)
         if not first and implies(relevant(gs, elapsed_f), elapsed_f) is True:
-            expected = [gate_f, ("not", none_f), ("not", flag_f), elapsed_f]
+            # a report without a timestamp cannot be timed at all: testing its presence is not an extra condition on the trigger
+            has_time = formula(ast.parse(f"'time' in {cb_tpv}", mode="eval").body) if cb_tpv else True
+            expected = [gate_f, ("not", none_f), ("not", flag_f), elapsed_f, has_time]
             if not no_extra_guard(guards(ctx, fl, c, primary=True), expected):
                 elapsed_sites.append(c.lineno)
     ctx.ob("C10.gdt", cb.short(), "filled-from-report", not dev_missing,
